@@ -92,6 +92,7 @@ func sequenceGenerator(
 		return
 	}
 
+	verifYield("seq_perm")
 	stopOrder := random.Perm(len(stops))
 
 	// we know the direct successor, so we move it to the front of the random
